@@ -7,6 +7,19 @@
 // Configuration: 64-bit usize (all four extraction configurations are 64-bit targets).
 global size_of usize == 8;
 
+// `&A[..]` has the view A@.subrange(0, len): only extensionally equal to A@. This (proved) lemma is
+// broadcast in every module so that the two are identified.
+pub mod vf_lemmas {
+    use vstd::prelude::*;
+
+    pub broadcast proof fn vf_lemma_subrange_full<T>(s: Seq<T>)
+        ensures
+            #[trigger] s.subrange(0, s.len() as int) == s,
+    {
+        assert(s.subrange(0, s.len() as int) =~= s);
+    }
+}
+
 // R1: arrayref::array_ref!(A, O, N)  ==  vf_array_ref::<_, {N}>(&(A)[..], O)
 #[verifier::external_body]
 pub fn vf_array_ref<T, const N: usize>(s: &[T], off: usize) -> (r: &[T; N])
